@@ -84,7 +84,10 @@ def gen_scenario(rng, profile='c08', nthreads=None, nops=None):
                 if r < acc: break
             sync = ' sync' if rng.chance(1, 6) else ''
             if kind == 0:
-                ops.append('put %s %s %d%s' % (rng.choice(sc.keys), tag(), _vlen(rng, big), sync))
+                vl = _vlen(rng, big)
+                # a write above the group-commit size cap (128 KiB + leader's size): it can never be merged into a small leader's group
+                if profile in ('writers', 'c08', 'stall') and rng.chance(1, 14): vl = rng.range(135000, 220000)
+                ops.append('put %s %s %d%s' % (rng.choice(sc.keys), tag(), vl, sync))
             elif kind == 1:
                 ops.append('del %s%s' % (rng.choice(sc.keys), sync))
             elif kind == 2:
